@@ -954,10 +954,6 @@ Proof.
 Qed.
 
 (* ---------- DefaultHooks.post_step: one 'niter' record per step, keyed by slot, start time, iteration, sweep, restart count *)
-Definition niter_key (s : step_view) : entry :=
-  Entry (Some (sv_slot s)) (sv_rank s) (Some (sv_time s)) m1 (Some (sv_iter s)) (Some (sv_sweep s)) (Some "niter"%string) (sv_nr s).
-
-Definition default_run (svs : list step_view) : hook Z := fold_left (fun h s => default_post_step s h) svs hook_init.
 
 Lemma type_neq_key a b : e_type a <> e_type b -> entry_eqb a b = false.
 Proof. intro H. apply entry_eqb_neq. congruence. Qed.
